@@ -24,11 +24,15 @@ def run(tier, replay=None):
     nfree = 300 if tier == "quick" else 5000
     p = C.run_harness(["reconfig", tp, str(nfree), str(C.seed())], timeout=1800)
     summ = json.loads(p.stdout.strip().splitlines()[-1])
-    r = C.validate_trace(run, "Trace_Reconfig", "Trace_Reconfig.cfg", "c15_trace", tp, timeout=1800,
-                         key={"part": "swap"}, linear=False)
-    if r:
-        run.states += r.distinct
-        run.transitions += r.generated
+    if summ.get("hung_in"):
+        run.mismatch({"kind": "a log / set_config call never returned", "part": "swap", "scenario": summ["hung_in"]},
+                     {"scenario": summ["hung_in"], "events_recorded": summ["events"]})
+    else:
+        r = C.validate_trace(run, "Trace_Reconfig", "Trace_Reconfig.cfg", "c15_trace", tp, timeout=1800,
+                             key={"part": "swap"}, linear=False)
+        if r:
+            run.states += r.distinct
+            run.transitions += r.generated
     run.traces += summ["scenarios"]
     run.samples = C.read_ndjson(tp)[20:36]
     # --- reloader: properties on a deep instance, replay of every history of a shallow one
